@@ -38,6 +38,8 @@ STRENGTHENED = {
     "C19-5": "C19: stand-in replication manager with a generated topology; GetNodeInfo compared field by field (empty and nil replica lists included)",
     "C20-5": "C20 assign sub-check: target directory with a longer stale MANIFEST.tmp left by an interrupted save",
     "C20-6": "C20 engine sub-check: databases created by the engine through absolute / relative / ./relative / unclean paths and reopened through the same path",
+    "C16-4": "C16: lifecycle moment 'manager stopped, service still answering': a node that still reports role replica must still refuse every client mutation",
+    "C16-5": "C16: client transactions (ro, refused rw, service handle) held open across replicated applies, with a progress bound on every apply and call",
     "C13-4": "C13: real Replica state machine with injected transient apply failures (error state -> recovery -> new stream)",
     "C15-4": "C15: primary with a pre-history (older log files in the directory) so that the ack path's retention pass has work to do",
 }
